@@ -219,7 +219,10 @@ def main(argv):
         preds = known_predicates(prop, open_ids)
         col = Collector(prop, preds)
         if hasattr(prop, "warmup"):
-            prop.warmup()
+            try:
+                prop.warmup()
+            except Exception:  # noqa: BLE001 - a broken library shows up in the cases themselves
+                pass
         t1 = time.time()
         deadline = t1 + seconds
         hseed = seed * 1000 + shard
